@@ -2,6 +2,7 @@ package openapi
 
 import (
 	"errors"
+	"math"
 	"strings"
 
 	"github.com/getkin/kin-openapi/openapi3"
@@ -59,14 +60,21 @@ func getConstraints(schema *openapi3.Schema) []ast.TypeConstraint {
 		})
 	}
 
+	isInteger := schema.Type.Slice()[0] == openapi3.TypeInteger
+
 	if schema.Min != nil {
 		op := ast.GreaterThanEqualOp
 		if schema.ExclusiveMin {
 			op = ast.GreaterThanOp
 		}
+		bound := *schema.Min
+		// a fractional bound on an integer: the smallest integer satisfying it (x >= 0.5 and x > 0.5 are both x >= 1)
+		if isInteger && bound != math.Trunc(bound) {
+			bound, op = math.Ceil(bound), ast.GreaterThanEqualOp
+		}
 		constraints = append(constraints, ast.TypeConstraint{
 			Op:   op,
-			Args: getArgs(schema.Min, schema.Type.Slice()[0]),
+			Args: getArgs(&bound, schema.Type.Slice()[0]),
 		})
 	}
 
@@ -75,9 +83,13 @@ func getConstraints(schema *openapi3.Schema) []ast.TypeConstraint {
 		if schema.ExclusiveMax {
 			op = ast.LessThanOp
 		}
+		bound := *schema.Max
+		if isInteger && bound != math.Trunc(bound) {
+			bound, op = math.Floor(bound), ast.LessThanEqualOp
+		}
 		constraints = append(constraints, ast.TypeConstraint{
 			Op:   op,
-			Args: getArgs(schema.Max, schema.Type.Slice()[0]),
+			Args: getArgs(&bound, schema.Type.Slice()[0]),
 		})
 	}
 
